@@ -178,6 +178,10 @@ struct Controller::Impl {
 
 static thread_local LThread* tlsMe = nullptr;
 static bool (*g_filter)(const char*) = nullptr;
+static void (*g_memSink)(const char*, const void*, long long, long long) = nullptr;
+void setMemSink(void (*sink)(const char* site, const void* obj, long long a, long long b)) {
+  g_memSink = sink;
+}
 void setSiteFilter(bool (*filter)(const char* site)) {
   g_filter = filter;
 }
@@ -804,7 +808,11 @@ void dispenso_verif_point(const char* site, const void* obj) {
 }
 
 void dispenso_verif_note(const char* site, const void* obj, long long a, long long b) {
-  (void)obj;
+  if (site[0] == 'M' && site[1] == 'e' && site[2] == 'm') {
+    if (ctl::g_memSink)
+      ctl::g_memSink(site, obj, a, b);
+    return;
+  }
   // library NOTE hooks of components the driver does not model (site filter) are dropped, like their points
   if (g_filter && !g_filter(site))
     return;
